@@ -139,4 +139,23 @@ PROPS = {
         title='join: compare-exchange layer (gt / condswap / eq) exact for every width; network topology unverified',
         unverified=['push_sorter, push_bitonic_merger, push_bitonic_sorter', 'compile_bitonic_merge, JoinLoop lowering, join built-in'],
     ),
+    'C17': dict(
+        units=['typing'],
+        deps=[],
+        witness=None,
+        level='proof',
+        technique='Verus contracts on the real type-agreement deciders (unify, check_type, check_or_constrain_unsigned/_signed) over the real AST type definitions',
+        claim='Deductive proof (Verus/Z3), over all types and expressions (the real AST datatypes, extracted each run), of the single place where '
+              'type agreement is decided: unify accepts two operands only if their types are equal or one is an unspecified integer-literal type '
+              'that may become the other, and then both carry the agreed type, every other pair is an error with at least one message; '
+              'check_or_constrain_unsigned/_signed accept exactly the expected type or a fitting unspecified literal (value bounds of every integer '
+              'type checked); check_type accepts only an expression whose type equals the expected one. That every construct of type_check consults '
+              'these deciders, scoping, mutability, recursion / unused-function checks and pattern refutability are NOT under contract.',
+        note='Trusted: (A5) derived PartialEq on the AST types is structural equality and Clone returns an equal value (admit / external_body stub: '
+             'derive(Clone) on the recursive enum is replaced); constrain_type is external_body (only "an error carries a message" is assumed); '
+             'vstd; extraction drops derive lists other than Clone/Copy/PartialEq/Eq/Hash/Debug and serde attributes.',
+        title='type agreement deciders: mismatching operand / expected types are rejected with an error, for all types and expressions',
+        unverified=['UntypedExpr/Stmt/Pattern::type_check (that every rule consults the deciders)', 'Env scoping and mutability checks',
+                    'recursion detection, unused-function and pub-without-params checks', 'refutability of let / for patterns', 'constrain_type body'],
+    ),
 }
